@@ -17,6 +17,7 @@
  * under the License.
  */
 
+#include <algorithm>
 #include <sstream>
 #include <stdexcept>
 
@@ -514,13 +515,17 @@ compact_tuple_sketch<S, A> compact_tuple_sketch<S, A>::deserialize(std::istream&
   A alloc(allocator);
   std::vector<Entry, AllocEntry> entries(alloc);
   if (!is_empty) {
-    entries.reserve(num_entries);
+    // the stream length is unknown: reserve as the data arrives (doubling, never beyond the announced number)
+    // so that a corrupted count cannot force a huge allocation before any entry has been read
+    const size_t min_chunk = 1024;
     std::unique_ptr<S, deleter_of_summaries> summary(alloc.allocate(1), deleter_of_summaries(1, false, allocator));
     for (size_t i = 0; i < num_entries; ++i) {
+      if (i == entries.capacity()) entries.reserve(std::min<size_t>(num_entries, i + std::max(i, min_chunk)));
       const auto key = read<uint64_t>(is);
       sd.deserialize(is, summary.get(), 1);
       entries.push_back(Entry(key, std::move(*summary)));
       (*summary).~S();
+      if (!is.good()) throw std::runtime_error("error reading from std::istream");
     }
   }
   if (!is.good()) throw std::runtime_error("error reading from std::istream");
